@@ -8,6 +8,7 @@
 
 #include <cmath>
 #include <sstream>
+#include <streambuf>
 
 namespace zd {
 // a scalar of type s as an arbitrary bit pattern, biased to the awkward ones
@@ -84,6 +85,9 @@ Case draw_bits_case(const model::Desc & d, bool allow_large)
                 c.ext.push_back(e);
                 c.cfg[k].push_back(e);
                 cells *= e;
+            }
+            if (l.kind == "strided" && !large && *in_range<unsigned>(0, 7) == 0) {
+                c.ext.push_back(*in_range<uint64_t>(1, 9));   // the array owns more cells than the grid uses
             }
             if (large) {
                 // large payloads are a pure function of ONE drawn seed (keeps the rapidcheck recipe small);
@@ -170,7 +174,7 @@ Verdict run(const Ctx & x, const Case & c)
         }
         const model::Layer & O = d.layers[arr - 1];
         if (O.kind == "strided") {
-            if (storage != c.data) {
+            if (storage.size() < c.data.size() || !std::equal(c.data.begin(), c.data.end(), storage.begin())) {
                 return std::string("row-major storage differs from the generated contents");
             }
         } else {
@@ -218,6 +222,36 @@ Verdict run(const Ctx & x, const Case & c)
     }
     if (ld2->dump() != bytes) {
         return std::string("dump(load(dump(f))) differs from dump(f)");
+    }
+    {
+        // the same bytes through a forward-only stream (no seeking, no size): pipes and sockets are streams too
+        struct ForwardBuf : std::streambuf {
+            const std::string & d;
+            size_t pos = 0;
+            explicit ForwardBuf(const std::string & s)
+                : d(s)
+            {
+            }
+            std::streamsize xsgetn(char * s, std::streamsize n) override
+            {
+                std::streamsize k = std::min<std::streamsize>(n, std::streamsize(d.size() - pos));
+                std::memcpy(s, d.data() + pos, size_t(k));
+                pos += size_t(k);
+                return k;
+            }
+            int_type underflow() override { return pos < d.size() ? traits_type::to_int_type(d[pos]) : traits_type::eof(); }
+            int_type uflow() override { return pos < d.size() ? traits_type::to_int_type(d[pos++]) : traits_type::eof(); }
+        } fb(bytes);
+        std::istream fs(&fb);
+        std::unique_ptr<zoo::IStack> ld3;
+        try {
+            ld3 = st->load(fs);
+        } catch (const std::exception & e) {
+            return std::string("loading the dump through a forward-only (non-seekable) stream threw: ") + e.what();
+        }
+        if (ld3->dump() != bytes) {
+            return std::string("the field loaded through a forward-only stream dumps to different bytes");
+        }
     }
     bool cfg_nondefault = false;
     for (size_t k = 0; k < c.cfg.size(); ++k) {
